@@ -654,3 +654,18 @@ Qed.
 
 Lemma ping_step : forall v a kb ka x y, snd (step v a (IRecv (MPing kb ka) x y)) = [dispatch a kb ka].
 Proof. reflexivity. Qed.
+
+(* a legacy connection response that is accepted (the invitee answers with its ack) verifies under the invitation key *)
+Lemma lc_response_signed : forall v B t dt d dco sg x y c r e ks m,
+  tget (a_thmap B) My dt = Some c -> cget (a_conns B) c = Some r ->
+  snd (step v B (IRecv (MResponse LC t dt d dco sg) x y)) = [OSend e ks m] ->
+  sg = c_rk r /\ sg <> 0.
+Proof.
+  intros v B t dt d dco sg x y c r e ks m TG CG H. unfold step in H.
+  destruct (negb (can (cur_state B My t) SResponded)); [cbn in H; discriminate|].
+  destruct (match v with Fixed => negb (N.eqb dt t) | AsIs => false end); [cbn in H; discriminate|].
+  cbv zeta in H. rewrite TG, CG in H.
+  destruct (negb (N.eqb sg 0) && N.eqb sg (c_rk r)) eqn:S; cbn [negb] in H; [|cbn in H; discriminate].
+  apply andb_true_iff in S. destruct S as [S1 S2]. apply N.eqb_eq in S2. apply negb_true_iff in S1.
+  apply N.eqb_neq in S1. auto.
+Qed.
